@@ -34,7 +34,9 @@ theorem wheel_rounds_up (armed p : Nat) :
 nothing in the future, one-shot timers act at most once and their handle tells what happened
 (`pending`/`cancelled` ⇒ nothing was sent, `ok`/`err` ⇒ exactly one attempt, `err` only for
 `send_after`), a finished task never acted after it finished, at most one (failing) attempt after
-the target stopped accepting, exit reasons have a source, handled messages were sent. -/
+the target stopped accepting (the instant its message loop ended — also while `post_stop` is still
+running), a `send_after` handle is `Ok` only for a send made no later than that instant and `Err` only
+after it, exit reasons have a source, handled messages were sent. -/
 theorem ok_all (ops : List Op) : ok (steps init ops) = true :=
   (Inv.init.steps ops).ok
 
@@ -92,7 +94,20 @@ theorem closed_form (ms : List MOp) (τ : Timer) (hτ : τ ∈ (mrun init ms).ti
       τ.sentAt[k] = τ.created + (k + 1) * τ.period) :=
   closed_form' (BInv.init.mrun ms) τ hτ k hk
 
-/-- An interval task whose target left the active states ends within one period (quiescent
+/-- (the handle reports the failed send) For every schedule: a `send_after` whose handle says
+`Ok(())` tried to send no later than the instant the target stopped accepting (status ≥ Draining —
+reached when `drain` is called or the message loop ends, NOT only when the actor is gone: while
+`post_stop` runs nothing is accepted any more), and a handle that says `Err` belongs to a send made
+after that instant. -/
+theorem handle_reports_send (ops : List Op) (τ : Timer) (hτ : τ ∈ (steps init ops).timers)
+    (hk : τ.kind = .sendAfter) :
+    (τ.res = .ok → ∀ tc, (steps init ops).target.closedAt = some tc → ∀ t ∈ τ.sentAt, t ≤ tc) ∧
+    (τ.res = .err → ∃ tc, (steps init ops).target.closedAt = some tc ∧ ∀ t ∈ τ.sentAt, tc ≤ t) :=
+  handle_reports_send' (Inv.init.steps ops) τ hτ hk
+
+/-- An interval task whose target left the active states — `closedAt`: the instant the message loop
+ended or `drain` was called; the target may still sit in `post_stop` for as long as it likes — ends
+within one period (quiescent
 runs): once the clock has reached the wheel deadline of a full period past the instant the target
 stopped accepting — and, for an interval created after that off the millisecond grid, the next
 millisecond boundary after its creation (its "immediate" first tick is rounded up too) —, the task is gone; and in any schedule it makes at most one (failing) attempt after that instant. -/
@@ -164,6 +179,20 @@ example : let s := mrun init [.create .interval 3000, .create .sendAfter 4000, .
     s.timers.map (·.res) = [.ok, .err] ∧ s.timers.map (·.sentAt) = [[3000, 6000], [6000]]
       ∧ s.target.handled = [(0, 1, 3000)] := by decide
 
+/-- the target sits in a gated `post_stop` from 1 ms on (stopped, not gone): the interval makes one
+failing attempt at its next tick and ends, a `send_after` created in that window reports the error,
+`exit` appears only when `post_stop` is released (8 ms), with the reason of the stop -/
+example : let s := mrun init [.create .interval 3000, .hold, .adv 1000, .stop, .create .sendAfter 2000, .adv 2000, .adv 4000]
+    s.timers.map (fun τ => (τ.res, τ.sentAt)) = [(.ok, [3000]), (.err, [3000])] ∧
+      s.target.closedAt = some 1000 ∧ s.target.stopping = some (.manual, 1000) ∧ s.target.exit = none := by decide
+example : let s := mrun init [.create .interval 3000, .hold, .adv 1000, .stop, .adv 7000, .psrelease]
+    s.target.exit = some (.manual, 8000) ∧ s.target.closedAt = some 1000 ∧ s.target.stopping = none := by decide
+/-- a kill that arrives during `post_stop` cancels it: the reason becomes "killed" -/
+example : let s := mrun init [.hold, .stop, .create .killAfter 2000, .adv 2000]
+    s.target.exit = some (.killed, 2000) ∧ s.target.closedAt = some 0 := by decide
+/-- a kill skips `post_stop` altogether -/
+example : (mrun init [.hold, .adv 1000, .kill]).target.exit = some (.killed, 1000) := by decide
+
 /-- exit_after with the documented reason -/
 example : (mrun init [.create .exitAfter 7000, .adv 7000]).target.exit = some (.exitAfter 7, 7000) := by decide
 
@@ -179,5 +208,6 @@ end C12
 #print axioms C12.abort_prevents
 #print axioms C12.closed_form
 #print axioms C12.interval_dies_with_target
+#print axioms C12.handle_reports_send
 #print axioms C12.exit_reason
 #print axioms C12.reason_string
